@@ -4,6 +4,7 @@ package c03
 import (
 	"bytes"
 	"crypto"
+	cdsa "crypto/dsa"
 	"crypto/ecdsa"
 	"crypto/ed25519"
 	"crypto/elliptic"
@@ -32,7 +33,7 @@ var _ = pkix.Name{}
 
 func init() {
 	zv.Register(&zv.Prop{ID: "C03", Topic: "c03", Gen: gen, Exec: exec,
-		Rule: "api: every (creation API in {CreateCertificate, CreateCertificateRequest, CreateCRL, CreateRevocationList, ocsp.CreateResponse}, SignatureAlgorithm 0..17, key in {RSA, ECDSA P-256/P-384, Ed25519}) create -> parse -> own verification API, plus verification after mutating the signed bytes / signature; csfk: x509.CheckSignatureFromKey on genuine signatures (RSA 1280/1536/2048 and moduli of 1025/1281/1031/2049/1545/1028 bits, i.e. bit length = 1..7 mod 8, PKCS#1 v1.5 and PSS per hash, DSA L1024N160, ECDSA P-256/P-384 as *ecdsa.PublicKey and as *AugmentedECDSA, Ed25519) and on mutations of message, signature (bit flips, truncation, extension, RSA forgeries made with the private key: roots of EM + 2^(modBits-1) (must-be-zero top bit / leading octet of the PSS representative), of EM + j*256^(k-1) and of structurally damaged EM, s + j*n, n - s, zero-extended; DER re-encodings: trailing bytes, third INTEGER, non-minimal lengths/integers, negative/zero r,s), key and claimed algorithm (all 18 values); a case is one distinct line; T3 = strict reference verifiers (own strict DER reader + crypto/ecdsa.VerifyASN1 / dsa.Verify / crypto/rsa (directly, wherever its key limits allow) / ed25519.Verify)"})
+		Rule: "dsa: zcrypto/dsa.Sign and Verify for every (parameter set with N = 160/224/256 and L = 512..3072, plus N = 16/192/384 and an N = 163 set Sign must refuse; digest = SHA-1/224/256/384/512 of a message and raw lengths 0, 1, n-1, n, n+1, 2n, 2n+1, 100 around the byte length n of q, top bit set, all zero, all ones) on a fixed random stream (incl. k = 0 / k >= q redraws and a reader running dry): same (r,s) as crypto/dsa and as the Lean model, own and standard verifier accept it and reject every changed digest; signatures made by crypto/dsa and their mutations (digest changed / truncated to n bytes / zero-extended, r+q, q-s, s+q, swapped, zero, negative) through zcrypto's Verify = crypto/dsa's verdict = model; csfkg lines: every genuine signature of the csfk stream (made by the library's own signers: zcrypto/rsa, zcrypto/dsa over all N = 160/224/256 sets with DSAWithSHA1 and DSAWithSHA256, crypto/ecdsa, ed25519) must be ACCEPTED by CheckSignatureFromKey; api: every (creation API in {CreateCertificate, CreateCertificateRequest, CreateCRL, CreateRevocationList, ocsp.CreateResponse}, SignatureAlgorithm 0..17, key in {RSA, ECDSA P-256/P-384, Ed25519}) create -> parse -> own verification API, plus verification after mutating the signed bytes / signature; csfk: x509.CheckSignatureFromKey on genuine signatures (RSA 1280/1536/2048 and moduli of 1025/1281/1031/2049/1545/1028 bits, i.e. bit length = 1..7 mod 8, PKCS#1 v1.5 and PSS per hash, DSA L1024N160, ECDSA P-256/P-384 as *ecdsa.PublicKey and as *AugmentedECDSA, Ed25519) and on mutations of message, signature (bit flips, truncation, extension, RSA forgeries made with the private key: roots of EM + 2^(modBits-1) (must-be-zero top bit / leading octet of the PSS representative), of EM + j*256^(k-1) and of structurally damaged EM, s + j*n, n - s, zero-extended; DER re-encodings: trailing bytes, third INTEGER, non-minimal lengths/integers, negative/zero r,s), key and claimed algorithm (all 18 values); a case is one distinct line; T3 = strict reference verifiers (own strict DER reader + crypto/ecdsa.VerifyASN1 / crypto/dsa.Verify / crypto/rsa (directly, wherever its key limits allow) / ed25519.Verify)"})
 }
 
 const (
@@ -226,7 +227,11 @@ func exec(line string) zv.Out {
 	op, a := f[1], f[2:]
 	tags := []string{"op=" + op}
 	switch op {
-	case "csfk": // kt k1 k2 k3 k4 algo signed sig oracle
+	case "dsasign":
+		return execDSASign(a, tags)
+	case "dsaver":
+		return execDSAVer(a, tags)
+	case "csfk", "csfkg": // kt k1 k2 k3 k4 algo signed sig oracle ; csfkg: the signature was made by the library's own signer over exactly these bytes with the matching key
 		key, std := parseKey(a[:5])
 		algo := atoi(a[5])
 		msg, sig := zv.UnHex(a[6]), zv.UnHex(a[7])
@@ -276,8 +281,10 @@ func exec(line string) zv.Out {
 		case *dsa.PublicKey:
 			if known {
 				if r, s, ok := strictSig(sig); ok && r.Sign() > 0 && s.Sign() > 0 {
-					ref = dsa.Verify(k, digestFor(algo, msg), r, s)
+					// crypto/dsa of the standard library, not zcrypto/dsa (which is the code under test)
+					ref = cdsa.Verify(&cdsa.PublicKey{Parameters: cdsa.Parameters{P: k.P, Q: k.Q, G: k.G}, Y: k.Y}, digestFor(algo, msg), r, s)
 				}
+				tags = append(tags, fmt.Sprintf("N=%d", k.Q.BitLen()))
 				if sa.fam != "dsa" {
 					refKnown = false
 					tags = append(tags, "family-mismatch")
@@ -305,6 +312,12 @@ func exec(line string) zv.Out {
 		}
 		if !refKnown && err == nil && !ref {
 			viol = fmt.Sprintf("CheckSignatureFromKey(%s, algo %d) accepted what the reference rejects", a[0], algo)
+		}
+		if op == "csfkg" {
+			tags = append(tags, "genuine")
+			if err != nil && viol == "" {
+				viol = fmt.Sprintf("CheckSignatureFromKey(%s, algo %d) rejects a signature the library's own signer made with the matching private key over the same %d bytes: %v", a[0], algo, len(msg), err)
+			}
 		}
 		if a[8] != "0" && a[8] != "1" {
 			panic("bad oracle bit")
